@@ -216,6 +216,32 @@ def _profile_collect(store):
     return prof
 
 
+class Err(str):
+    """error text of a run + where the exception was raised ('repo' or 'harness')"""
+    origin = "repo"
+
+
+def exception_origin(exc):
+    """'harness' if the exception was raised by the checking code itself (a harness that reaches for a private name the tree
+    no longer has, a reference that cannot handle a configuration ...), 'repo' if it came out of the code under test.
+    Decided by the innermost traceback frame that belongs to either; NumPy, the standard library and the symbolic shim
+    (which the code under test calls into) are skipped.  A harness error is never a verdict about synapgrad."""
+    repo = os.path.realpath(os.environ.get("VERIF_REPO", "/repo")) + os.sep
+    vf = os.path.dirname(os.path.dirname(os.path.realpath(__file__))) + os.sep
+    shim = os.path.dirname(os.path.realpath(__file__)) + os.sep
+    frames = []
+    tb = exc.__traceback__
+    while tb is not None:
+        frames.append(os.path.realpath(tb.tb_frame.f_code.co_filename))
+        tb = tb.tb_next
+    for fn in reversed(frames):
+        if fn.startswith(repo):
+            return "repo"
+        if fn.startswith(vf) and not fn.startswith(shim):
+            return "harness"
+    return "harness"
+
+
 def run_symbolic(case, model, rng, profile=False, allow_ties=False):
     pr = PathResult()
     CTX.begin_run()
@@ -236,8 +262,8 @@ def run_symbolic(case, model, rng, profile=False, allow_ties=False):
         pr.error = ("oob", str(e))
     except RecursionError as e:
         pr.error = ("unsupported", "recursion: " + repr(e))
-    except Exception as e:  # noqa: BLE001 - the real code raised
-        pr.error = ("exception", "%s: %s" % (type(e).__name__, e))
+    except Exception as e:  # noqa: BLE001 - the real code raised (or the harness did: told apart by the traceback)
+        pr.error = ("exception" if exception_origin(e) == "repo" else "harness", "%s: %s" % (type(e).__name__, e))
         pr.tb = traceback.format_exc(limit=8)
     finally:
         if profile:
@@ -263,7 +289,9 @@ def run_plain(case, point, mode="plain", uses_rng=False):
         out.notes["_any32"] = any(isinstance(a, np.ndarray) and a.dtype == np.float32 for a in env.inputs.values())
         return out, None
     except Exception as e:  # noqa: BLE001
-        return None, "%s: %s" % (type(e).__name__, e)
+        err = Err("%s: %s" % (type(e).__name__, e))
+        err.origin = "unsupported" if isinstance(e, Unsupported) else exception_origin(e)
+        return None, err
     finally:
         ar.uninstall()
 
@@ -634,6 +662,11 @@ def decide_case(case, opts):
                 res["inconclusive"].append("trace validation failed: " + why)
                 res["status"] = "harness"
                 continue
+        if pr.error and pr.error[0] == "harness":
+            # the checking code itself failed (e.g. it reached for a private attribute the tree no longer has)
+            res["inconclusive"].append("harness error: " + pr.error[1])
+            res["status"] = "harness"
+            continue
         if pr.error:
             # the real code raised on this path although the case did not expect it
             res["obligations"] += 1
@@ -1010,6 +1043,8 @@ def replay_generic(case, cand, uses_rng=False):
     kind = cand["kind"]
     if kind == "exception":
         out, err = run_plain(case, point, "plain", uses_rng)
+        if err is not None and getattr(err, "origin", "repo") != "repo":
+            return False, "plain run stopped in the checking code, not in synapgrad (%s): %s" % (err.origin, err)
         if err is not None:
             return True, "plain run raises " + err
         return False, "plain run does not raise"
